@@ -6,7 +6,9 @@ CONSTANTS
     MaxTotal = 5
     MaxResp = 2
     MaxPolls = 2
+    MaxRetries = 2
+    MaxRefusals = 2
     TrackHist = FALSE
-INVARIANTS BodiesAreNextRange BodyBounded AtMostOneInFlight ReadsInOrder
+INVARIANTS AcceptedAreStream GaveUpOnlyAfterMaxRetries BodiesAreNextRange BodyBounded AtMostOneInFlight ReadsInOrder
 PROPERTIES CloseStopsPolling
 CHECK_DEADLOCK FALSE
